@@ -41,6 +41,7 @@ type puppetResult struct {
 	InSHA  string `json:"in_sha"`
 	Forced int    `json:"forced"` // cwait gates given up on
 	Code   int    `json:"code"`   // exit status about to be used
+	Sig    int    `json:"sig"`    // signal the puppet is about to die by (0: none)
 }
 
 func init() {
@@ -164,6 +165,9 @@ steps:
 		case "exit":
 			code = st.Code
 			break steps
+		case "kill":
+			res.Sig = st.Sig
+			break steps
 		}
 	}
 	res.Code = code
@@ -173,5 +177,13 @@ steps:
 	}
 	// last action: everything this process will ever write has been written
 	touch(filepath.Join(pp.Dir, "exiting"))
+	if res.Sig != 0 {
+		// end by signal; should the signal have been inherited as ignored,
+		// SIGKILL does it
+		_ = syscall.Kill(os.Getpid(), syscall.Signal(res.Sig))
+		time.Sleep(2 * time.Second)
+		_ = syscall.Kill(os.Getpid(), syscall.SIGKILL)
+		time.Sleep(time.Hour)
+	}
 	return code
 }
